@@ -275,11 +275,21 @@ func (p *Project) Transform() Query {
 				ons = append(ons, q.ons[i])
 			}
 		}
-		if len(cols) == 0 { // no summaries left
-			return newProject(q.source, p.columns).Transform()
-		}
-		if set.HasSubset(p.columns, q.by) {
-			return NewSummarize(q.source, q.hint, q.by, cols, ops, ons).Transform()
+		if len(cols) == 0 {
+			// no summaries left
+			// only the by columns have the same values as in the source
+			// (a whole row min/max also has the other source columns)
+			if set.HasSubset(q.by, p.columns) {
+				return newProject(q.source, p.columns).Transform()
+			}
+		} else if set.HasSubset(p.columns, q.by) {
+			// remove unused summaries
+			su := NewSummarize(q.source, q.hint, q.by, cols, ops, ons)
+			// not if the result is a whole row min/max
+			// because that would add all the source columns
+			if !su.wholeRow {
+				return su.Transform()
+			}
 		}
 	case *Rename:
 		return p.transformRename(q)
